@@ -27,7 +27,7 @@ fn seeds(f: Fmt) -> Vec<&'static str> {
     }
 }
 fn dictionary(f: Fmt) -> Vec<&'static str> {
-    let mut d = vec!["<", ">", "\"", "\\", "\\u", "\\U0010FFFF", "\\u0000", "%", "%zz", "#", "?", "_:", "_:.", "_:a..b", "@", "@en-", "@e1-", "^^", "\n", "\r", " ", "\u{0}", "\u{FFFE}", "\u{10FFFF}", "é", "\u{200D}", "http://[::1]/", "http://[1:2::3]/", "http://[v1.x]/", "http://a:b/", "s://a:b/", "//", "/..", "1e", ".", ":", "a:b"];
+    let mut d = vec!["<", ">", "\"", "\\", "\\u", "\\U0010FFFF", "\\u0000", "%", "%zz", "#", "?", "_:", "_:.", "_:a..b", "@", "@en-", "@e1-", "^^", "\n", "\r", " ", "\u{0}", "\u{FFFE}", "\u{10FFFF}", "é", "\u{200D}", "@en-x-a", "@fr-u-co-phonebk", "@x-a-b", "@a-1", "@de-t-m0-und", "_:a.-b", "_:a.\u{b7}b", "_:a.\u{300}b", "_:a.\u{203f}b", "_:a-.b", "_:\u{37f}.\u{2040}", "http://[::1]/", "http://[1:2::3]/", "http://[v1.x]/", "http://a:b/", "s://a:b/", "//", "/..", "1e", ".", ":", "a:b"];
     match f {
         Fmt::Turtle | Fmt::Trig | Fmt::Gtrig => d.extend(["<<", ">>", "{|", "|}", "[", "]", "(", ")", "@prefix", "@base", "PREFIX", "BASE", "GRAPH", "{", "}", ";", ",", "a", "true", "'''", "\"\"\"", "+1.", "-.5", "1E+", "?v", "$v", ":\\~", ":%41", "p:"]),
         Fmt::Gnq | Fmt::Nq | Fmt::Nt => d.extend(["<<", ">>", "?v", "$"]),
